@@ -3,7 +3,7 @@ from vlib.engine import Scenario
 
 ID = "C11"
 THEOREMS = ["Bufr.C11.C11_put", "Bufr.C11.C11_get", "Bufr.C11.C11_get_past_end", "Bufr.C11.C11_skip",
-            "Bufr.C11.C11_skip_any", "Bufr.C11.C11_fields", "Bufr.C11.C11_padstring"]
+            "Bufr.C11.C11_skip_any", "Bufr.C11.C11_skip_past_end", "Bufr.C11.C11_fields", "Bufr.C11.C11_padstring"]
 RULE = ("exhaustive (offset 0..7)x(width 1..64)x(4 patterns) write/read-back; skip 0..200 at every offset vs "
         "reads of the same total; reads at/across the section end; random field/string sequences crossing the "
         "4096-byte growth boundary; distinct = distinct (op, bit offset, width, outcome class)")
